@@ -116,6 +116,8 @@ theorem inv_change (db : DB) (inv : DiskInv db) (k : Key) (hk : k < 2^64) (idx' 
     rcases hkeys j hj with rfl | h
     · exact (mem_pendingAdd _ _ _).mpr (Or.inl rfl)
     · exact (mem_pendingAdd _ _ _).mpr (Or.inr (inv.dat2 ho j h))
+  · exact inv.dreads
+  · exact inv.dat3
 
 /-! ### operations that only change flags -/
 
@@ -163,6 +165,8 @@ theorem inv_flags (db : DB) (inv : DiskInv db) (idx' : List (Key × Rec))
   · exact inv.dat1
   · intro ho j hj
     exact inv.dat2 ho j (by rw [← hkeys]; exact hj)
+  · exact inv.dreads
+  · exact inv.dat3
 
 theorem applyBF_lt (fl res : Nat) (h : fl < 2^32) : applyBrowsingFlags fl res < 2^32 := by
   have hs : ∀ x bit, (bit = 1 ∨ bit = 2) → x < 2^32 → setFlag x bit < 2^32 := by
@@ -196,7 +200,7 @@ theorem applyBF_lt (fl res : Nat) (h : fl < 2^32) : applyBrowsingFlags fl res < 
 
 theorem inv_noSync (db : DB) (inv : DiskInv db) (b : Bool) : DiskInv { db with noSync := b } :=
   ⟨inv.cached, inv.nv, inv.wf, inv.nodup, inv.pnodup, inv.pkeys, inv.ver, inv.verlt, inv.dseq, inv.logst,
-   inv.log1, inv.log2, inv.clean, inv.files, inv.dflags, inv.dat1, inv.dat2⟩
+   inv.log1, inv.log2, inv.clean, inv.files, inv.dflags, inv.dat1, inv.dat2, inv.dreads, inv.dat3⟩
 
 /-- size and width side conditions of one operation (the data file stays below 4 GiB, keys are 64-bit,
     flags 32-bit) -/
@@ -297,7 +301,7 @@ theorem get_inv (db : DB) (inv : DiskInv db) (k : Key) : DiskInv (Qdb.get db k).
     · intro kr hkr
       rcases mem_iset k _ db.index kr hkr with h | h
       · have hk := inv.wf (k, r) (ilookup_key_pair k r db.index hl)
-        rw [h]; exact ⟨hk.1, applyBF_lt _ _ hk.2.1, hk.2.2⟩
+        rw [h]; exact ⟨hk.1, applyBF_lt r.flags YES_CACHE hk.2.1, hk.2.2⟩
       · exact inv.wf kr h
     · rw [keys_iset]
       simp [ilookup_key_mem k r db.index hl]
@@ -320,9 +324,125 @@ theorem applyFlags_inv (db : DB) (inv : DiskInv db) (k : Key) (fl : Nat) (hf : h
     · intro kr hkr
       rcases mem_iset k _ db.index kr hkr with h | h
       · have hk := inv.wf (k, r) (ilookup_key_pair k r db.index hl)
-        rw [h]; exact ⟨hk.1, applyBF_lt _ _ hk.2.1, hk.2.2⟩
+        rw [h]; exact ⟨hk.1, applyBF_lt r.flags fl hk.2.1, hk.2.2⟩
       · exact inv.wf kr h
     · rw [keys_iset]
       simp [ilookup_key_mem k r db.index hl]
+
+def browseG (w : List (Key × Nat)) (k : Key) (r : Rec) : Rec :=
+  if hasFlag r.flags NO_BROWSE then r else { r with flags := applyBrowsingFlags r.flags (walkRes w k) }
+
+theorem browseRec_eq (w : List (Key × Nat)) (kr : Key × Rec) :
+    browseRec false w kr = (kr.1, browseG w kr.1 kr.2) := by
+  unfold browseRec browseG
+  simp only [Bool.not_false, Bool.true_and]
+  split <;> rfl
+
+theorem browse_inv (db : DB) (inv : DiskInv db) (w : List (Key × Nat)) (hw : WalkOK w) :
+    DiskInv (browse db w).1 := by
+  obtain ⟨h1, _⟩ := browseGen_cached false db w inv.cached hw
+  have hc := (browse_cached db w inv.cached hw).1
+  unfold browse at hc ⊢
+  rw [h1] at hc ⊢
+  have hmap : db.index.map (browseRec false w) = db.index.map (fun kr => (kr.1, browseG w kr.1 kr.2)) := by
+    apply List.map_congr_left
+    intro kr _
+    exact browseRec_eq w kr
+  rw [hmap] at hc ⊢
+  apply inv_flags db inv
+  · intro j
+    rw [ilookup_mapKV]
+    cases ilookup j db.index with
+    | none => rfl
+    | some r =>
+      simp only [Option.map_some, Option.some.injEq]
+      unfold browseG noFlags
+      split <;> rfl
+  · exact hc.2
+  · intro kr hkr
+    obtain ⟨x, hx, rfl⟩ := List.mem_map.mp hkr
+    obtain ⟨a, b, c⟩ := inv.wf x hx
+    unfold browseG
+    split
+    · exact ⟨a, b, c⟩
+    · exact ⟨a, applyBF_lt x.2.flags (walkRes w x.1) b, c⟩
+  · unfold Keys
+    rw [List.map_map]
+    rfl
+
+theorem step_inv (db : DB) (inv : DiskInv db) (op : Op) (ok : OpOK op) (fits : OpFits db op) :
+    DiskInv (step db op) := by
+  cases op with
+  | put k v =>
+    obtain ⟨a, b, c⟩ := fits
+    exact putExt_inv db inv k v 0 a b (by decide) (by decide) c
+  | putExt k v f =>
+    obtain ⟨a, b, c, d⟩ := fits
+    exact putExt_inv db inv k v f a b c ok d
+  | del k => exact del_inv db inv k fits.1 fits.2
+  | get k => exact get_inv db inv k
+  | browse w => exact browse_inv db inv w ok
+  | applyFlags k fl => exact applyFlags_inv db inv k fl ok
+  | defrag f =>
+    show DiskInv (defragOp db f).1
+    unfold defragOp
+    rw [if_neg (notFailed inv.cached)]
+    rw [if_neg (by simp [inv.nv])]
+    dsimp only
+    split
+    · exact (defrag_inv db inv.cached inv.nv ⟨inv.cached.2, inv.wf, inv.nodup, fits.2⟩).1
+    · exact inv
+  | sync =>
+    show DiskInv (syncOp db)
+    unfold syncOp
+    rw [if_neg (notFailed inv.cached)]
+    rw [if_neg (by simp [inv.nv])]
+    exact (sync_inv _ (inv_noSync db inv false) fits).1
+  | noSync =>
+    show DiskInv (noSyncOp db)
+    unfold noSyncOp
+    rw [if_neg (notFailed inv.cached)]
+    rw [if_neg (by simp [inv.nv])]
+    exact inv_noSync db inv true
+  | reopen a b c => exact absurd ok (by simp [OpOK])
+
+/-- side conditions along a whole run -/
+def RunFits : DB → List Op → Prop
+  | _, [] => True
+  | db, op :: t => OpFits db op ∧ RunFits (step db op) t
+
+theorem run_inv (ops : List Op) (db : DB) (inv : DiskInv db) (ok : ∀ op ∈ ops, OpOK op) (fits : RunFits db ops) :
+    DiskInv (run db ops) := by
+  induction ops generalizing db with
+  | nil => exact inv
+  | cons op t ih =>
+    exact ih (step db op) (step_inv db inv op (ok op List.mem_cons_self) fits.1)
+      (fun o ho => ok o (List.mem_cons_of_mem _ ho)) fits.2
+
+/-- the fresh non-volatile store on an empty directory satisfies the invariant -/
+theorem fresh_inv (load : Bool) (opts : Opts) : DiskInv (openDB {} false load opts) := by
+  have e : openDB {} false load opts = { fs := {}, volatile := false, opts := opts, dataSeq := 1 } := by
+    cases load <;> rfl
+  rw [e]
+  constructor
+  · exact ⟨rfl, by intro kr h; cases h⟩
+  · rfl
+  · intro kr h; cases h
+  · exact List.nodup_nil
+  · exact List.nodup_nil
+  · intro k h; cases h
+  · rfl
+  · show (0 : Nat) < 2^32; decide
+  · show (1 : Nat) < 2^32; decide
+  · exact ⟨([] : List LogEntry), fun e he => (by cases he), Or.inl ⟨rfl, rfl⟩⟩
+  · intro _; rfl
+  · intro h; cases h
+  · intro k _; rfl
+  · intro k r _ h; cases h
+  · intro kr h; cases h
+  · intro h; cases h
+  · intro _ k h; cases h
+  · intro kr h; cases h
+  · intro _; rfl
 
 end GocoinV.Proofs.C19
